@@ -49,6 +49,12 @@ ANON = bool(os.environ.get("AVLINT_ANON"))
 _UPVAR_NAME = re.compile(r"\.\^(\d+):[A-Za-z0-9_]+")
 
 
+def _uncast(e):
+    while isinstance(e, tuple) and e[0] == "cast":
+        e = e[1]
+    return e
+
+
 class Body:
     def __init__(self, d):
         self.d = d
@@ -448,6 +454,65 @@ class Body:
             edges.append(("otherwise", t["o"]))
         return e, edges
 
+    # ---- equivalent spellings of one test ---------------------------------
+    # A rule that asks for `x.is_empty()` must also accept `x.len() == 0`, and one that asks for
+    # `opt.is_none()` must accept `if let None = opt` / `match opt { None => .. }` (and vice versa):
+    # these are the rewrites a behaviour-preserving edit makes. `synonyms` returns the other
+    # spellings of (condition, edge label); guards() lists them next to the literal form and
+    # rules.edges_where() accepts an edge if any spelling satisfies the predicate.
+    def synonyms(self, c, lab):
+        out = []
+        if isinstance(lab, bool):
+            e, truth = c, lab
+            while isinstance(e, tuple) and e[0] == "un" and e[1] == "Not":
+                e, truth = e[2], (not truth)
+            # len(v) compared with 0 / 1  ->  is_empty(v)
+            if isinstance(e, tuple) and e[0] == "bin" and e[1] in ("Eq", "Ne", "Lt", "Le", "Gt", "Ge"):
+                op, a, b = e[1], _uncast(e[2]), _uncast(e[3])
+                if op in ("Gt", "Ge"):  # a > b  ==  b < a
+                    op, a, b = ("Lt" if op == "Gt" else "Le"), b, a
+                if op == "Ne":
+                    op, truth2 = "Eq", (not truth)
+                else:
+                    truth2 = truth
+                def is_len(x):
+                    return isinstance(x, tuple) and x[0] == "call" and (x[1] or "").endswith("::len") and len(x[2]) == 1
+                def k(x):
+                    return x[2] if isinstance(x, tuple) and x[0] == "const" and isinstance(x[2], int) else None
+                emp = None  # truth value of "v is empty" established by this edge
+                v = None
+                if op == "Eq" and is_len(a) and k(b) == 0:
+                    v, emp = a, truth2
+                elif op == "Eq" and is_len(b) and k(a) == 0:
+                    v, emp = b, truth2
+                elif op == "Lt" and k(a) == 0 and is_len(b):      # 0 < len
+                    v, emp = b, (not truth2)
+                elif op == "Le" and is_len(a) and k(b) == 0:      # len <= 0
+                    v, emp = a, truth2
+                elif op == "Lt" and is_len(a) and k(b) == 1:      # len < 1
+                    v, emp = a, truth2
+                elif op == "Le" and k(a) == 1 and is_len(b):      # 1 <= len
+                    v, emp = b, (not truth2)
+                if v is not None:
+                    out.append((("call", v[1][: -len("len")] + "is_empty", v[2], None), emp))
+            # is_empty(v)  ->  len(v) == 0
+            if isinstance(e, tuple) and e[0] == "call" and (e[1] or "").endswith("::is_empty") and len(e[2]) == 1:
+                out.append((("bin", "Eq", ("call", e[1][: -len("is_empty")] + "len", e[2], None), ("const", None, 0, None, "usize")), truth))
+            # Option::is_some / is_none  ->  discriminant test
+            if isinstance(e, tuple) and e[0] == "call" and rx(r"^core::option::Option<T>::(is_some|is_none)$|^core::option::Option::(is_some|is_none)$").search(e[1] or "") and len(e[2]) == 1:
+                some = (e[1].endswith("is_some")) == truth
+                out.append((("discr", e[2][0], "core::option::Option"), "Some" if some else "None"))
+            if isinstance(e, tuple) and e[0] == "call" and rx(r"^core::result::Result<T, E>::(is_ok|is_err)$").search(e[1] or "") and len(e[2]) == 1:
+                okv = (e[1].endswith("is_ok")) == truth
+                out.append((("discr", e[2][0], "core::result::Result"), "Ok" if okv else "Err"))
+        elif isinstance(lab, str) and isinstance(c, tuple) and c[0] == "discr":
+            if c[2] == "core::option::Option" and lab in ("Some", "None"):
+                out.append((("call", "core::option::Option<T>::is_some", (c[1],), None), lab == "Some"))
+                out.append((("call", "core::option::Option<T>::is_none", (c[1],), None), lab == "None"))
+            if c[2] == "core::result::Result" and lab in ("Ok", "Err"):
+                out.append((("call", "core::result::Result<T, E>::is_ok", (c[1],), None), lab == "Ok"))
+        return out
+
     def guards(self, site, _depth=0):
         """facts established on every path to `site`: list of
         (cond_expr, label, branch_block)"""
@@ -464,6 +529,8 @@ class Body:
                 if self.edge_dominates(a, tb, site) and a != site:
                     for lab in labs:
                         out.append((e, lab, a))
+                        for e2, l2 in self.synonyms(e, lab):
+                            out.append((e2, l2, a))
                     if len(labs) > 1:
                         out.append((e, ("oneof", tuple(labs)), a))
                     # `matches!(..)` / `let b = <match>` : a bool temp assigned
